@@ -14,6 +14,7 @@ class Seed:
         self.callees = tuple(callees)  # names in the namespace usable for replace/call_eqv/noop
         self.configs = tuple(configs)
         self.quick = quick
+        self.eqv = ()
 
     def build(self):
         from .exoutil import mkprocs
@@ -479,6 +480,38 @@ def cfglb(n: size, x: f32[n]):
     CFG.a = 1
 """, configs=("CFG",))
 
+S("config/eqv", "config", CFG + """
+@proc
+def kern(m: size, d: [f32][m]):
+    CFG.b = 1
+    for k in seq(0, m):
+        d[k] = 1.0
+
+kern_r = rename(kern, "kern_r")
+kern_s = divide_loop(kern, "k", 2, ["ko", "ki"], tail="cut")
+kern_a = write_config(kern, kern.body()[0].before(), CFG, "a", "2")
+kern_nb = delete_config(kern, kern.find("CFG.b = _"))
+kern_b2 = write_config(kern, kern.body()[-1].after(), CFG, "b", "2")
+
+@proc
+def kern_other(m: size, d: [f32][m]):
+    CFG.b = 1
+    for k in seq(0, m):
+        d[k] = 2.0
+
+@proc
+def cfgeqv(n: size, x: f32[n], y: f32[n]):
+    CFG.a = 0
+    kern(n, x)
+    if CFG.a == 0:
+        y[0] = 1.0
+    kern(n, y)
+    if CFG.b == 1:
+        y[0] = 3.0
+    kern(n, x)
+""", configs=("CFG",), callees=("kern",), quick=True)
+SEEDS[-1].eqv = ("kern_r", "kern_s", "kern_a", "kern_nb", "kern_b2", "kern_other", "kern")
+
 # ----------------------------------------------------------------- guard
 S("guard/ifs", "guard", """
 @proc
@@ -613,6 +646,20 @@ def dnames(x: f32[4], x_1: f32[4]):
         x_1[i] = t
     for i_1 in seq(0, 2):
         x[i_1 + 2] = x_1[i_1]
+""")
+S("dup/gen_names", "dup", """
+@proc
+def dgen(x: f32[4], y: f32[4]):
+    for i in seq(0, 2):
+        t: f32
+        t = x[i]
+        y[i] = t
+    t_1: f32
+    t_1 = 5.0
+    y[2] = t_1
+    for i_1 in seq(0, 2):
+        for i in seq(0, 2):
+            y[i] += x[i_1]
 """)
 S("dup/cut", "dup", """
 @proc
